@@ -126,7 +126,30 @@ def r_file_attached(ctx):
     ctx.ob(rid, 'instantiate:with_file', ok, 'compile errors of instantiate carry the file', ins.where())
 
 
+def r_conversions(ctx):
+    rid = 'R20.5'
+    ctx.rule(rid, 'span conversions: from a pest pair = (line_col of the pair start, line_col of the end position of its span); from a pest error = its position (one column wide) or its span; start before end in both')
+    fx = ctx.facts()
+    fn = ctx.anchor(fx, "<error::Span as std::convert::From<&'a pest::iterators::Pair<'_, parse::Rule>>>::from")
+    rets = [S(r) for k, p, r in explore(ctx, fn) if k == 'RET']
+    exp = 'new(new(line_col(pair).0, line_col(pair).1), new(line_col(end_pos(as_span(pair))).0, line_col(end_pos(as_span(pair))).1))'
+    ctx.ob(rid, 'from-pair', rets == [exp], 'Span::from(pair) = Span::new(Position(pair.line_col()), Position(pair.as_span().end_pos().line_col()))', fn.where(), str(rets))
+    fe = ctx.anchor(fx, '<error::RichError as std::convert::From<pest::error::Error<parse::Rule>>>::from')
+    got = {}
+    for k, p, r in explore(ctx, fe):
+        if k == 'RET' and p.conds:
+            got[p.conds[0][1]] = S(r)
+    L = 'error.line_col'
+    exp = {'Pos': 'new(Grammar{to_string(message(error.variant))}, new(new(%s@Pos.0.0, %s@Pos.0.1), new(%s@Pos.0.0, AddWithOverflow(%s@Pos.0.1, 1_usize).0)))' % (L, L, L, L),
+           'Span': 'new(Grammar{to_string(message(error.variant))}, new(new(%s@Span.0.0, %s@Span.0.1), new(%s@Span.1.0, %s@Span.1.1)))' % (L, L, L, L)}
+    ctx.ob(rid, 'from-pest-error', got == exp, 'grammar errors point at the position pest reports (Pos: that column; Span: start..end) with pest\'s message', fe.where(), str(got)[:500])
+    ws = ctx.anchor(fx, 'error::Error::with_span')
+    rets = [S(r) for k, p, r in explore(ctx, ws) if k == 'RET']
+    ctx.ob(rid, 'with_span', rets == ['new(self, span)'], 'Error::with_span(span) = RichError::new(self, span)', ws.where(), str(rets))
+
+
 def check(ctx):
+    r_conversions(ctx)
     r_provenance(ctx)
     r_render(ctx)
     c06.panic_rule(ctx, 'R20.3', entries=['<error::RichError as std::fmt::Display>::fmt', '<error::Error as std::fmt::Display>::fmt', 'error::<impl std::convert::From<error::RichError> for std::string::String>::from',
